@@ -33,7 +33,8 @@ class CTRLInterface(UDPLink):
 
 	def handle_rx(self):
 		# Read data from socket
-		data, remote = self.sock.recvfrom(128)
+		# NOTE: SETFH may carry up to 64 pairs of frequencies (trxcon: TRXC_BUF_SIZE = 1024)
+		data, remote = self.sock.recvfrom(1024)
 		data = data.decode()
 
 		if not self.verify_req(data):
